@@ -11,8 +11,8 @@ from . import exprs, progs
 # -- the fixed table of function meanings (mirrors Apply in specs/Expr.tla) ------------------
 
 
-def func_f(x, k=0):
-    return 2 * x + k + 1
+def func_f(x, k=0, m=0):
+    return 2 * x + k + 5 * m + 1
 
 
 def func_g(x, y):
@@ -38,7 +38,7 @@ def make_funcs(fault=None, log=None):
     out = dict(FUNCS)
     state = {"raised": None}
 
-    def f(x, k=0):
+    def f(x, k=0, m=0):
         counts[k] = counts.get(k, 0) + 1
         if log is not None:
             log.append(("<func>f", k, counts[k]))
@@ -46,7 +46,7 @@ def make_funcs(fault=None, log=None):
             exc = FaultInjected("<func>f k=%d #%d" % (k, counts[k]))
             state["raised"] = exc
             raise exc
-        return func_f(x, k)
+        return func_f(x, k, m)
 
     out["<func>f"] = f
     return out, state
